@@ -144,15 +144,18 @@ class _GoAway:
 @harness(
     "C14", "h2_goaway",
     quick=[{"S": 1}, {"S": 2}],
-    example=dict(at=3, rel=1, d0=0, c0=0, retries=0),
-    require=("refused-and-resent", "covered-by-goaway"),
+    example=dict(at=3, rel=1, d0=0, c0=0, retries=0, bb=True),
+    require=("refused-and-resent", "C14:covered-by-goaway", "C03:resent-with-a-body"),
+    also=("C03",),
+    per_prop={"C03": {"quick": [{"S": 1, "_pre": "bb == True and d0 == 0 and c0 == 0"}],
+                      "thorough": [{"S": 1, "_pre": "bb == True"}, {"S": 2, "_pre": "bb == True and d0 == 0 and c0 == 0"}]}},
     timeout={"quick": 300, "thorough": 900},
     symbolic="the server-side event (request HEADERS / DATA frame / request END, index 0..9) at which GOAWAY is sent; last_stream_id in {0, 1, 3, 5, 7}; one deviation from the FIFO schedule; retries",
     bounds="1 or 2 concurrent requests after a warm-up on one HTTP/2 connection, max_connections=2",
     outside="GOAWAY followed by further responses on the same connection (the h2 library in server role cannot send after GOAWAY)",
     stubs=("h2 server sends GOAWAY through close_connection(last_stream_id=...)",),
 )
-def h2_goaway(at: int, rel: int, d0: int, c0: int, retries: int) -> None:
+def h2_goaway(at: int, rel: int, d0: int, c0: int, retries: int, bb: bool) -> None:
     """
     pre: 0 <= at <= 9 and 0 <= rel <= 4 and 0 <= d0 <= 25 and 0 <= c0 <= 1 and 0 <= retries <= 1
     post: _
@@ -163,14 +166,18 @@ def h2_goaway(at: int, rel: int, d0: int, c0: int, retries: int) -> None:
     if S == 1 and at > 4:
         return
     a, r, dd, cc, rr = ladder(at, 0, 9), ladder(rel, 0, 4), ladder(d0, 0, 25), ladder(c0, 0, 1), ladder(retries, 0, 1)
-    with concrete(a, r, dd, cc, rr):
+    as_bytes = bool(bb)
+    with concrete(a, r, dd, cc, rr, as_bytes):
         pol = _GoAway(a, (0, 1, 3, 5, 7)[r])
         su = Setup("h2prior", True, max_connections=2, h2_policy=pol, retries=rr)
         w = su.api.request(su.pool, "GET", su.url("warm"), extensions={"timeout": {"pool": 0, "read": 50}})
         if not P.check(w.ok, "warm-up", "once:h2:warmup"):
             return
         rt = vrt.new_runtime(clock=2)
-        def body() -> typing.AsyncIterator[bytes]:
+        def body() -> typing.Any:
+            if as_bytes:
+                return b"xyz"  # a body that can be sent again as it is
+
             async def agen() -> typing.AsyncIterator[bytes]:
                 yield b"x"
                 yield b"y"
@@ -201,6 +208,17 @@ def h2_goaway(at: int, rel: int, d0: int, c0: int, retries: int) -> None:
                         "resent-only-if-goaway-named-a-lower-last-stream-id",
                         lambda: f"{sig}:resent-although-covered:sid={sid}:last={pol.goaway_last}")
                 P.check(c.status == 200, "transparent-resend-succeeds", lambda: f"{sig}:resend-failed:{type(c.exc).__name__}")
+                if c.method == "POST" and as_bytes:
+                    # C03: every transmission attempt carries the caller's request - head and body
+                    P.cover("resent-with-a-body")
+                    oi, sid2 = [h for h in heads if h[0] != 0][0] if [h for h in heads if h[0] != 0] else heads[-1]
+                    st2 = su.origins[oi].streams[sid2]
+                    P.check(st2["body"] == b"xyz" and st2["ended"], "the-re-sent-request-carries-the-whole-body",
+                            lambda: f"{sig}:resent-body:{st2['body']!r}", prop="C03")
+                    P.check((b"content-length", b"3") in st2["headers"] and (b":method", b"POST") in st2["headers"],
+                            "the-re-sent-request-carries-the-same-head", lambda: f"{sig}:resent-head", prop="C03")
+                    P.check(not su.origins[oi].violations, "the-re-sent-request-is-legal-http2",
+                            lambda: f"{sig}:resent-illegal:{su.origins[oi].violations[:1]}", prop="C03")
             elif sids_first and pol.goaway_last is not None and sids_first[0] <= pol.goaway_last:
                 P.cover("covered-by-goaway")
                 if c.exc is not None:
